@@ -118,6 +118,8 @@ def plan(pid, tier, seed, scratch, bins):
         timeout = tierval(job.get("timeout"), tier, 600 if tier == "quick" else 5400)
         race = bool(job.get("race"))
         binpath = bins["race" if race else "plain"]
+        if job.get("pkg"):
+            binpath = bins["pkg:" + job["pkg"]]  # a test that lives in another harness package
         if kind == "fuzz":
             continue  # handled separately (needs the source package)
         for k in range(n):
@@ -298,6 +300,12 @@ def _check(pid, tier, seed, prop, scratch, t0):
         bins["race"] = b
     bins.setdefault("race", bins.get("plain"))
     bins.setdefault("plain", bins.get("race"))
+    for other in sorted({j["pkg"] for j in jobs if j.get("pkg")}):
+        b, out = build(other, scratch)
+        if not b:
+            print("INCONCLUSIVE property=%s harness package %s does not build against /repo:\n%s" % (pid, other, out[-3000:]))
+            return 2
+        bins["pkg:" + other] = b
 
     shards = plan(pid, tier, seed, scratch, bins)
     with concurrent.futures.ThreadPoolExecutor(max_workers=NCPU) as ex:
